@@ -31,7 +31,8 @@ TARGETS = ['valjean.eponine.apollo3.hdf5_reader:Reader.read_file', 'valjean.epon
            'valjean.eponine.tripoli4.transform:convert_data_in_place']
 SRC = os.environ.get('VERIF_TREE', '/repo') + '/tests/eponine/tripoli4/data/gauss_E_time_mu_phi.res.ceav5'
 BOUNDS = {'quick': {'responses per listing': 2, 'energy groups': '1-3', 'second dimension': 'none, time steps (1-3) or mu zones (1-3)',
-                    'printing order': 'increasing or decreasing, independently per dimension', 'scores': 'distinct positive tags, one solver-chosen cell zero or negative'},
+                    'printing order': 'increasing or decreasing, independently per dimension', 'scores': 'distinct positive tags, one solver-chosen cell zero or negative',
+                    'energy-integrated results': 'after every spectrum (per time step); one solver-chosen relative sigma printed as exactly zero'},
           'thorough': {'responses per listing': '1 (1-4 energy groups) or 2 (1 energy group)', 'energy groups': '1-4', 'second dimension': 'none, time (1-3), mu (1-3), time x mu (2x2)',
                        'printing order': 'all combinations'}}
 ASSUMPTIONS = ['listings are synthesised from the layout of the shipped example gauss_E_time_mu_phi.res.ceav5 (header, edition framing, response '
@@ -89,8 +90,10 @@ def response_text(name, egroups, second, tag0):
             s.append(f'{_fmt(a)} - {_fmt(b)}\t{_fmt(score)}\t{_fmt(sigma)}\t{_fmt(score / 2)}\n')
         s.append('\n')
         if second['kind'] != 'mu':
+            isig = 0.0 if second.get('integrated_sigma_zero') == i2 else 1.5 + i2
+            second.setdefault('integrated', {})[i2] = (tot, isig)
             s.append('\t ENERGY INTEGRATED RESULTS\n\n\t number of first discarded batches : 0\n\n'
-                     f'number of batches used: 200\t{_fmt(tot)}\t{_fmt(1.5)}\n\n\n')
+                     f'number of batches used: 200\t{_fmt(tot)}\t{_fmt(isig)}\n\n\n')
         else:
             s.append('\n')
         return ''.join(s)
@@ -138,6 +141,12 @@ def make_harness(nresp, max_e, seconds):
             if sp:
                 sec['special_cell'] = (ex.choice(ne, f'special-e{r}'), ex.choice(n2, f'special-2_{r}'))
                 sec['special_value'] = 0.0 if sp == 1 else -0.25
+            if kind != 'mu':
+                if nresp == 1:          # position of a relative sigma printed as exactly zero: solver-chosen (single-response jobs)
+                    if ex.flag(f'integrated-sigma-zero{r}'):
+                        sec['integrated_sigma_zero'] = ex.choice(n2, f'integrated-sigma-zero-at{r}')
+                elif r == 0:
+                    sec['integrated_sigma_zero'] = n2 - 1
             eg = groups(e_edges, e_dec)
             t, cells, tag = response_text(f'score_{r}', eg, sec, tag)
             text.append(t)
@@ -186,6 +195,37 @@ def make_harness(nresp, max_e, seconds):
                         good = False
                 ex.check(good, 'every-score-sits-in-the-cell-it-was-printed-with-and-error-is-value-times-sigma', detail=name)
                 ex.check(int(np.prod(val.shape)) == len(cells), 'no-extra-cells', detail=f'{name}: {val.shape}')
+                # the energy-integrated results printed after each spectrum
+                if sec.get('integrated'):
+                    key = 'score_eintegrated' if dim2 else 'score_integrated'
+                    ids = item['results'].get(key)
+                    ex.check(ids is not None, 'energy-integrated-results-are-kept', detail=f'{name}: {sorted(item["results"])}')
+                    if ids is not None:
+                        iv = np.asarray(ids.value, dtype=float)
+                        ie_ = np.asarray(ids.error, dtype=float)
+                        iaxes = list(ids.bins)
+                        ieb = np.asarray(ids.bins['e'], dtype=float)
+                        ok = len(ieb) == 2 and np.allclose(ieb, [e_edges[0], e_edges[-1]], rtol=1e-6)
+                        if dim2:
+                            ib2 = np.asarray(ids.bins[dim2], dtype=float)
+                            ok = ok and len(ib2) == len(sec['edges']) and np.allclose(ib2, sec['edges'], rtol=1e-6)
+                        ex.check(bool(ok), 'integrated-results-carry-the-printed-boundaries-in-increasing-order', detail=name)
+                        good = iv.size == len(sec['integrated'])
+                        for i2, (tot, isig) in sec['integrated'].items():
+                            idx = [0] * iv.ndim
+                            if dim2:
+                                idx[iaxes.index(dim2)] = int(np.argmin(np.abs(np.asarray(sec['edges']) - min(sec['groups'][i2]))))
+                            if iv.size != len(sec['integrated']) or not (
+                                    np.isclose(iv[tuple(idx)], tot, rtol=1e-6, atol=1e-12)
+                                    and np.isclose(ie_[tuple(idx)], tot * isig / 100, rtol=1e-5, atol=1e-12)):
+                                good = False
+                        ex.check(good, 'every-integrated-result-sits-in-the-step-it-was-printed-under-and-error-is-value-times-sigma',
+                                 detail=f'{name}: {iv.ravel()} +- {ie_.ravel()} expected {sec["integrated"]}')
+                leth = item['results'].get('score/lethargy')
+                if leth is not None:
+                    lv = np.asarray(leth.value, dtype=float)
+                    ex.check(lv.shape == val.shape and np.allclose(lv, val / 2, rtol=1e-5, atol=1e-12),
+                             'score-per-lethargy-sits-in-the-same-cells', detail=name)
         finally:
             shutil.rmtree(tmp, ignore_errors=True)
     return harness
